@@ -2,6 +2,7 @@
 import re
 
 from .. import census, mir, util, opw
+from ..facts import MachineryError
 from ..mir import cname, strip, callee_name, show
 
 EXPLANATION = ('Decided from MIR: (R20.1) panic-site census from urdf::from_urdf over the crate-local call graph including functions passed as '
@@ -111,6 +112,36 @@ def angle_syntax(ctx, fu):
         conv = any(cname(callee_name(t2)) == 'f64::to_radians' for bi, t2 in pa.calls()) or any(cname(callee_name(t2)) == 'f64::to_radians' for c in util.closure_bodies(prog, pa.path) for bi, t2 in c.calls())
         ctx.check(conv, 'R20.6', 'degrees-to-radians', pa.where(0), pa.path, 'a ${radians(deg)} limit must be converted to radians')
 
+
+
+NAME_SPEC = [('joint1', 'joint1'), ('JOINT2', 'joint2'), ('leftJOINT_2!', 'joint2'), ('${prefix}joint_a3', 'joint3'), ('kuka_arm_joint_a1', 'joint1'),
+             ('robot_joint_4', 'joint4'), ('station2_joint_a5', 'joint5'), ('joint_6', 'joint6'), ('${prefix}joint_5', 'joint5')]
+
+
+def joint_names(ctx, cj):
+    """R20.8: automatic joint naming.  The simplifier called by the joint collector (a pipeline of regex / str library calls with
+    constant patterns) is read from its MIR terms and evaluated, with the library calls modelled, on a table of names: prefixes
+    (literal or ${macro}), case, separators and a decoration between `joint` and the digit must all reduce to joint<digit>."""
+    from .. import strmodel
+    prog = ctx.prog
+    ctx.rule('R20.8', 'the joint-name simplifier maps decorated names (prefixes, ${macro} prefixes, case, separators, a letter between `joint` and the digit) to joint<digit>')
+    cands = set()
+    for bi, t in cj.calls():
+        p = t['callee'].get('resolved')
+        b = prog.bodies.get(p)
+        if b is not None and b.kind != 'Closure' and b.arg_count == 1 and 'str' in b.local_ty(1) and 'String' in b.local_ty(0):
+            cands.add(p)
+    ctx.require(len(cands) == 1, 'the joint-name simplifier fn(&str) -> String called by the joint collector')
+    path = cands.pop()
+    ctx.fn(prog.bodies[path])
+    for tok, want in NAME_SPEC:
+        try:
+            got = strmodel.Eval(prog).call_fn(path, [tok])
+        except strmodel.Unsupported as e:
+            raise MachineryError('joint-name simplifier could not be evaluated on %r: %s' % (tok, e))
+        ctx.check(got == want, 'R20.8', 'name %s' % tok, prog.bodies[path].where(0), path,
+                  'the joint named `%s` is looked up as %r, expected %r (the robot is then not recognised, or the wrong joint is taken)' % (tok, got, want),
+                  found=repr(got), expected=repr(want), detail=repr(got))
 
 
 def run(ctx):
@@ -314,6 +345,7 @@ def run(ctx):
     ctx.check(dflt, 'R20.7', 'axis-default', cj.where(0), cj.path, 'a joint without <axis> must get sign correction 1, otherwise the axis helper decides')
 
     angle_syntax(ctx, fu)
+    joint_names(ctx, cj)
 
 
 def _is_j_plus_1(g):
